@@ -166,6 +166,9 @@ var c19Fams = map[string]c19FamBind{
 	"KeyCredFlags": {mk: func(w uint64) reflect.Value { return reflect.ValueOf(uint8(w)) },
 		names: func(w uint64) []string {
 			var kf key.CustomKeyInformationFlags
+			if w%3 == 1 { // a value that has decomposed another byte before
+				kf.FromBytes(byte(^w))
+			}
 			kf.FromBytes(byte(w))
 			if uint64(kf.Value) != w {
 				return []string{"\x00Value not stored"}
@@ -187,27 +190,42 @@ var c19Tables = map[string]func(v uint64) string{
 	"SAMAccountType":                func(v uint64) string { return ldap_attributes.SAMAccountType(v).String() },
 	"KeyCredVolumeType": func(v uint64) string {
 		x := key.CustomKeyInformationVolumeType{}
+		if v%3 == 1 {
+			x.FromBytes(byte(^v))
+		}
 		x.FromBytes(byte(v))
 		return x.String()
 	},
 	"KeyCredEntryType": func(v uint64) string {
 		x := key.KeyCredentialEntryType{}
+		if v%3 == 1 {
+			x.FromBytes(byte(^v))
+		}
 		x.FromBytes(byte(v))
 		return x.String()
 	},
 	"KeyCredVersion": func(v uint64) string {
 		x := key.KeyCredentialVersion{}
+		if v%3 == 1 {
+			x.FromBytes(binary.LittleEndian.AppendUint32(nil, uint32(^v)))
+		}
 		x.FromBytes(binary.LittleEndian.AppendUint32(nil, uint32(v)))
 		return x.String()
 	},
 	"KeySource": func(v uint64) string { return key.KeySource(v).String() },
 	"KeyStrength": func(v uint64) string {
 		x := key.KeyStrength{}
+		if v%3 == 1 {
+			x.FromBytes(binary.LittleEndian.AppendUint32(nil, uint32(^v)))
+		}
 		x.FromBytes(binary.LittleEndian.AppendUint32(nil, uint32(v)))
 		return x.Name
 	},
 	"KeyUsage": func(v uint64) string {
 		x := key.KeyUsage{}
+		if v%3 == 1 {
+			x.FromBytes(byte(^v))
+		}
 		x.FromBytes(byte(v))
 		return x.String()
 	},
